@@ -4,6 +4,7 @@ package sql
 
 import (
 	"bytes"
+	"context"
 
 	"github.com/codenotary/immudb/embedded/verifrt"
 )
@@ -185,4 +186,48 @@ func VerifH_WhereRangesComplete() {
 	verifrt.Assert(bytes.HasPrefix(key, spec.Prefix), "row key under the scan prefix")
 	verifrt.Assert(bytes.Compare(lo, key) <= 0, "row key not below the scan range")
 	verifrt.Assert(bytes.Compare(key, hi) <= 0, "row key not above the scan range")
+}
+
+// verifRows is a RowReader serving a fixed list of rows (only Read is used by the wrappers under test).
+type verifRows struct {
+	RowReader
+	rows []*Row
+	pos  int
+}
+
+func (r *verifRows) Read(ctx context.Context) (*Row, error) {
+	if r.pos >= len(r.rows) {
+		return nil, ErrNoMoreRows
+	}
+	r.pos++
+	return r.rows[r.pos-1], nil
+}
+
+// VerifH_LimitOffsetReaders: LIMIT / OFFSET. Over a source of n rows, the real offsetRowReader
+// and limitRowReader (stacked as SELECT ... LIMIT l OFFSET o does) with symbolic o and l return
+// exactly rows o .. o+l-1 of the source, in order, then ErrNoMoreRows - and keep saying so.
+func VerifH_LimitOffsetReaders() {
+	n := verifrt.Param("n")
+	src := &verifRows{}
+	for i := 0; i < n; i++ {
+		src.rows = append(src.rows, &Row{ValuesByPosition: []TypedValue{&Integer{val: int64(i)}}})
+	}
+	offset, limit := verifrt.Int("offset"), verifrt.Int("limit")
+	verifrt.Assume(offset >= 0 && offset <= n+1 && limit >= 0 && limit <= n+1)
+	var rd RowReader = src
+	rd = newOffsetRowReader(rd, offset)
+	rd = newLimitRowReader(rd, limit)
+	want := 0
+	for i := 0; i < n; i++ {
+		if i >= offset && i < offset+limit {
+			row, err := rd.Read(context.Background())
+			verifrt.Assert(err == nil && row == src.rows[i], "the next row of the window, in source order")
+			want++
+		}
+	}
+	_, err := rd.Read(context.Background())
+	verifrt.Assert(err == ErrNoMoreRows, "nothing beyond the window")
+	_, err = rd.Read(context.Background())
+	verifrt.Assert(err == ErrNoMoreRows, "and it stays exhausted")
+	verifrt.Reach("window read")
 }
